@@ -4,8 +4,8 @@
 let b x = if x then 1 else 0
 
 let state_tok (f : ifa) : string =
-  Printf.sprintf "k%du%di%dd%de%dc%dn%d" (b f.dev_known) (b f.oper_up) (b f.initialized) (b f.done_closed)
-    (b (f.eth <> NoHandle)) (b (f.eth = Closed)) (int_of_nat f.handles)
+  Printf.sprintf "k%du%di%dd%de%dc%dn%ds%d" (b f.dev_known) (b f.oper_up) (b f.initialized) (b f.done_closed)
+    (b (f.eth <> NoHandle)) (b (f.eth = Closed)) (int_of_nat f.handles) (b f.subscribed)
 
 let panic_tok = function
   | CloseOfClosedChannel -> "panic:close-closed"
